@@ -84,13 +84,14 @@ Contradictory(fmt, a) ==
 VARIABLES fmt, settings,   \* the case: format and the settings to apply, in order
           idx,             \* settings applied so far
           attrs,           \* the data format's attributes
-          status           \* "open" | "refused" | "valid" | "inconsistent"
-vars == <<fmt, settings, idx, attrs, status>>
+          status,          \* "open" | "refused" | "valid" | "inconsistent"
+          asked            \* how often the format has been asked to complete itself (validate())
+vars == <<fmt, settings, idx, attrs, status, asked>>
 
 SettingSeqs == UNION {[1..n -> Settings] : n \in 1..MaxSettings}
 Init == /\ fmt \in Formats /\ settings \in SettingSeqs
         /\ (Len(settings) = 2 => settings[1].prop # settings[2].prop)
-        /\ idx = 0 /\ attrs = Defaults(fmt) /\ status = "open"
+        /\ idx = 0 /\ attrs = Defaults(fmt) /\ status = "open" /\ asked = 0
 
 \* data.py:291-385
 SetProperty ==
@@ -100,13 +101,21 @@ SetProperty ==
      IN IF ~Applies(fmt, s.prop) \/ d[1] = "bad"
         THEN status' = "refused" /\ UNCHANGED attrs
         ELSE attrs' = [attrs EXCEPT ![s.prop] = <<d[2]>>] /\ UNCHANGED status
-  /\ idx' = idx + 1 /\ UNCHANGED <<fmt, settings>>
+  /\ idx' = idx + 1 /\ UNCHANGED <<fmt, settings, asked>>
 \* data.py:495-523
 Validate ==
   /\ status = "open" /\ idx = Len(settings)
   /\ status' = IF Contradictory(fmt, attrs) THEN "inconsistent" ELSE "valid"
+  /\ asked' = 1
   /\ UNCHANGED <<fmt, settings, idx, attrs>>
-Next == SetProperty \/ Validate
+\* a format that was refused for a contradiction is not valid (is_valid stays False) and may be asked again: the answer is the
+\* same function of the same attributes
+ValidateAgain ==
+  /\ status = "inconsistent" /\ asked < 2
+  /\ status' = IF Contradictory(fmt, attrs) THEN "inconsistent" ELSE "valid"
+  /\ asked' = asked + 1
+  /\ UNCHANGED <<fmt, settings, idx, attrs>>
+Next == SetProperty \/ Validate \/ ValidateAgain
 Spec == Init /\ [][Next]_vars
 
 (* ------------------------------ C11 ------------------------------ *)
@@ -116,7 +125,9 @@ DefaultsKept ==
     (\A i \in 1..idx : settings[i].prop # p \/ (status = "refused" /\ i = idx)) => attrs[p] = Defaults(fmt)[p]
 \* a completed data format never holds contradictory settings
 NeverContradictory == status = "valid" => ~Contradictory(fmt, attrs)
-TypeOK == status \in {"open", "refused", "valid", "inconsistent"} /\ idx \in 0..Len(settings)
-Emit == status # "open" =>
+\* 'contradictory settings are refused when the CID is completed' -- every time it is completed
+RefusalIsFinal == [][status = "inconsistent" => status' = "inconsistent"]_vars
+TypeOK == status \in {"open", "refused", "valid", "inconsistent"} /\ idx \in 0..Len(settings) /\ asked \in 0..2
+Emit == (status # "open" /\ (status = "inconsistent" => asked = 2)) =>
    PrintT(<<"VEC", ToJson([fmt |-> fmt, settings |-> settings, status |-> status, attrs |-> attrs, refusedAt |-> idx])>>)
 =============================================================================
